@@ -183,6 +183,12 @@ pub fn generate(rng: &mut Rng, n: usize, thorough: bool) -> Vec<Value> {
     ] {
         v.push(json!({"kind":"parse","s":hexs(s.as_bytes())}));
     }
+    // many parts: counts around the wrap-around points of narrow counters (a count kept in 8 bits, a fixed buffer; 16-bit counts would need strings too long for the case files)
+    for k in [5usize, 8, 16, 32, 64, 128, 255, 256, 257, 258, 259, 260, 261, 511, 512, 513, 516, 517, 1024, 1028] {
+        let s = (0..k).map(|i| if i < 4 { (i + 1).to_string() } else { "7".to_string() }).collect::<Vec<_>>().join(".");
+        v.push(json!({"kind":"parse","s":hexs(s.as_bytes())}));
+        if k <= 1028 { v.push(json!({"kind":"json_de","j":hexs(format!("\"{}\"", s).as_bytes())})); }
+    }
     if thorough {
         // all strings of length <= 5 over 8 symbols (37 449 strings)
         let alpha = [b'0', b'1', b'9', b'.', b'+', b'-', b' ', b'a'];
